@@ -103,6 +103,7 @@ pub fn install(quiet: bool) {
             eprintln!("[panic] {msg} at {loc}");
         }
     }));
+    #[cfg(not(miri))]
     unsafe {
         for s in [6, 11, 7, 4, 8] {
             signal(s, on_signal as usize);
